@@ -73,6 +73,41 @@ func checkC11(w *World, r *Report) {
 	isCtx := func(v ssa.Value) bool { return isNamed(v.Type(), twigPath, "RenderContext") }
 
 	// ---- R11.1
+	// functions that obtain another template: they call Engine.Load, or a helper of the package
+	// that does and hands the *Template back
+	loaders := map[*ssa.Function]bool{}
+	returnsTemplate := func(f *ssa.Function) bool {
+		res := f.Signature.Results()
+		for i := 0; i < res.Len(); i++ {
+			if isNamed(res.At(i).Type(), twigPath, "Template") {
+				return true
+			}
+		}
+		return false
+	}
+	for changed := true; changed; {
+		changed = false
+		for _, fn := range w.pkgFuncs() {
+			if loaders[fn] {
+				continue
+			}
+			instrsOf(fn, func(in ssa.Instruction) {
+				c, ok := in.(ssa.CallInstruction)
+				if !ok || loaders[fn] {
+					return
+				}
+				if calleeFunc(c) == loadFn {
+					loaders[fn] = true
+					changed = true
+					return
+				}
+				if g := c.Common().StaticCallee(); g != nil && loaders[g] && returnsTemplate(g) && g != fn {
+					loaders[fn] = true
+					changed = true
+				}
+			})
+		}
+	}
 	n1 := 0
 	for _, fn := range w.pkgFuncs() {
 		var ctxParam *ssa.Parameter
@@ -84,13 +119,7 @@ func checkC11(w *World, r *Report) {
 		if ctxParam == nil {
 			continue
 		}
-		loads := false
-		instrsOf(fn, func(in ssa.Instruction) {
-			if c, ok := in.(ssa.CallInstruction); ok && calleeFunc(c) == loadFn {
-				loads = true
-			}
-		})
-		if !loads {
+		if !loaders[fn] {
 			continue
 		}
 		instrsOf(fn, func(in ssa.Instruction) {
@@ -117,21 +146,19 @@ func checkC11(w *World, r *Report) {
 			}
 		})
 	}
-	r.floor("nested Render calls in template-loading functions", n1, 4)
+	r.floor("nested Render calls in template-loading functions", n1, 2)
 
 	// ---- R11.2 / R11.3 in IncludeNode.Render
 	inc := w.ssaFunc(w.method("IncludeNode", "Render"))
 	incCtx := inc.Params[2]
 	flagEdge := func(field string, wantTrue bool) func(b *ssa.BasicBlock, i int) bool {
 		return func(b *ssa.BasicBlock, i int) bool {
-			v, trueIdx, ok := ifCond(b)
-			if !ok {
+			return anyEdgeFact(b, i, func(v ssa.Value, trueIdx int) bool {
+				if _, ok := fieldLoad(v, "IncludeNode", field); ok {
+					return (i == trueIdx) == wantTrue
+				}
 				return false
-			}
-			if _, ok := fieldLoad(v, "IncludeNode", field); ok {
-				return (i == trueIdx) == wantTrue
-			}
-			return false
+			})
 		}
 	}
 	onlyFalse := &boolFlow{fn: inc, entry: false, edge: flagEdge("only", false)}
@@ -174,19 +201,20 @@ func checkC11(w *World, r *Report) {
 	notFoundFor := func(errv ssa.Value) *boolFlow {
 		fl := &boolFlow{fn: inc, entry: false}
 		fl.edge = func(b *ssa.BasicBlock, i int) bool {
-			v, trueIdx, ok := ifCond(b)
-			if !ok || i != trueIdx {
-				return false
-			}
-			c, ok := v.(*ssa.Call)
-			if !ok || !isFunc(calleeFunc(c), "errors", "", "Is") || len(c.Call.Args) != 2 {
-				return false
-			}
-			if !sameValue(c.Call.Args[0], errv) {
-				return false
-			}
-			g := globalOf(c.Call.Args[1])
-			return g != nil && g.Name() == "ErrTemplateNotFound"
+			return anyEdgeFact(b, i, func(v ssa.Value, trueIdx int) bool {
+				if i != trueIdx {
+					return false
+				}
+				c, ok := v.(*ssa.Call)
+				if !ok || !isFunc(calleeFunc(c), "errors", "", "Is") || len(c.Call.Args) != 2 {
+					return false
+				}
+				if !sameValue(c.Call.Args[0], errv) {
+					return false
+				}
+				g := globalOf(c.Call.Args[1])
+				return g != nil && g.Name() == "ErrTemplateNotFound"
+			})
 		}
 		fl.solve()
 		return fl
